@@ -1,5 +1,5 @@
 import Qryn.Proofs.LogQLMetric
-import Qryn.Proofs.MetricCompose
+import Qryn.Proofs.MetricShortcut
 /-! # C08 — the SQL generated for LogQL metric queries computes the defined aggregates
 
 Model: `LogQL.planMetric` (tied byte-for-byte to the real planner's SQL text by the `text` stream, its step
@@ -353,6 +353,39 @@ theorem plan_metric_correct_samples_path (o : Oracles) (c : MCtx) (hn : c.namesO
     (hm : q.rangeAgg.sel.matchers.length ≤ 63) (hms : 1000000 ∣ q.rangeAgg.durNs) (hd : 0 < q.rangeAgg.durNs) :
     (evalSelA o (d.toDbM c) (planMetric c q)).map normRow = evalMetric o c d q :=
   planMetric_lra o c hn d q fn hk hs hok hm hms hd
+
+/-- **plan_metric_correct on the metrics_15s path, every query shape.** `q` takes the shortcut (`shortcut_iff`: rate or
+    count_over_time, range a multiple of 15 s, only line filters that pass every line). Hypotheses besides those of the
+    samples path: timestamps are not negative, and the skipped line filters do pass every stored line (for the empty
+    needle this is `shortcut_skips_only_passing_filters`). The statement reads `metrics_15s` (by definition the
+    materialized view of `samples`: one row per stream, 15 s slot and type with the number of entries) and returns
+    exactly the matrix of the direct reading over the entries of the window rounded down to whole slots. -/
+theorem plan_metric_correct_shortcut (o : Oracles) (c : MCtx) (hn : c.namesOk) (d : LokiDb) (q : MetricQuery)
+    (hs : takesShortcut q = true) (hok : aggOk q)
+    (hm : q.rangeAgg.sel.matchers.length ≤ 63) (hms : 1000000 ∣ q.rangeAgg.durNs)
+    (hts : ∀ s ∈ d.samples, 0 ≤ s.ts)
+    (htriv : ∀ s ∈ d.samples, (lineFilters q.rangeAgg.sel).all (fun f => lineHolds o f s.str) = true) :
+    (evalSelA o (d.toDbM c) (planMetric c q)).map normRow = evalMetric o c d q :=
+  planMetric_shortcut o c hn d q hs hok hm hms hts htriv
+
+/-- `plan()` is the composition of its phases, `planPhases (takesShortcut q) c q`: `planPhases true` is the plan of
+    `planMetrics15Shortcut`, `planPhases false` the plan of the matrix functions in `getFunctionOrder`. -/
+theorem plan_is_phases (c : MCtx) (q : MetricQuery) : planMetric c q = planPhases (takesShortcut q) c q :=
+  planMetric_phases c q
+
+/-- **every pipeline stage written in the query takes effect whatever the range duration: the shortcut drops none.**
+    For a query that takes the shortcut and a window of whole 15 s slots (`FixPeriodPlanner` hands down whole range
+    buckets and the range is a multiple of 15 s), the shortcut's statement and the statement the matrix functions
+    would build for the same query (reading `samples`, every stage planned) return the same matrix. -/
+theorem shortcut_equals_function_plan (o : Oracles) (c : MCtx) (hn : c.namesOk) (d : LokiDb) (q : MetricQuery)
+    (hs : takesShortcut q = true) (hok : aggOk q)
+    (hm : q.rangeAgg.sel.matchers.length ≤ 63) (hms : 1000000 ∣ q.rangeAgg.durNs)
+    (hts : ∀ s ∈ d.samples, 0 ≤ s.ts)
+    (htriv : ∀ s ∈ d.samples, (lineFilters q.rangeAgg.sel).all (fun f => lineHolds o f s.str) = true)
+    (hfrom : Int.tdiv c.fromNs slot15 * slot15 = c.fromNs) (hto : Int.tdiv c.toNs slot15 * slot15 = c.toNs) :
+    (evalSelA o (d.toDbM c) (planPhases true c q)).map normRow =
+      (evalSelA o (d.toDbM c) (planPhases false c q)).map normRow :=
+  shortcut_plan_eq_function_plan o c hn d q hs hok hm hms hts htriv hfrom hto
 
 /-! ## non-vacuity -/
 example : LraRows [[("_string", .str [97, 98])]] [⟨1, 5, [97, 98], 1⟩] := by unfold LraRows; decide
